@@ -517,6 +517,52 @@ func hasMaxFloat32(v reflect.Value) bool {
 	return bad
 }
 
+var scalarLooking = []string{"true", "false", "1.50", "1e3", "-7", "0", "null", "12345678901234567890", "-0.0", "3.14159", "-", ".", "e5", "1.", "NaN"}
+
+// forceScalarStrings overwrites the settable string leaves that are not map keys with scalar-looking texts
+func forceScalarStrings(r *vh.Rng, v reflect.Value) {
+	t := v.Type()
+	if t == vh.TimeType {
+		return
+	}
+	switch t.Kind() {
+	case reflect.String:
+		if v.CanSet() && r.Chance(2, 3) {
+			v.SetString(scalarLooking[r.Intn(len(scalarLooking))])
+		}
+	case reflect.Slice, reflect.Array:
+		if t.Elem().Kind() == reflect.Uint8 {
+			return
+		}
+		for i := 0; i < v.Len(); i++ {
+			forceScalarStrings(r, v.Index(i))
+		}
+	case reflect.Map:
+		it := v.MapRange()
+		type kv struct{ k, e reflect.Value }
+		var upd []kv
+		for it.Next() {
+			e := reflect.New(t.Elem()).Elem()
+			e.Set(it.Value())
+			forceScalarStrings(r, e)
+			upd = append(upd, kv{it.Key(), e})
+		}
+		for _, x := range upd {
+			v.SetMapIndex(x.k, x.e)
+		}
+	case reflect.Ptr:
+		if !v.IsNil() {
+			forceScalarStrings(r, v.Elem())
+		}
+	case reflect.Struct:
+		for i := 0; i < t.NumField(); i++ {
+			if t.Field(i).PkgPath == "" {
+				forceScalarStrings(r, v.Field(i))
+			}
+		}
+	}
+}
+
 // forceBigUint sets the first settable uint / uint64 / uintptr leaf to a value >= 2^63
 func forceBigUint(r *vh.Rng, v reflect.Value) bool {
 	t := v.Type()
@@ -666,6 +712,12 @@ func (c *ctx) one(r *vh.Rng, idx int, wantModel bool) {
 	v := vh.RandValue(r, t, vo)
 	if n.signed && !hasBigUint(v) && r.Chance(1, 6) {
 		forceBigUint(r, v)
+	}
+	// string VALUES (never map keys) that look like scalars: they must stay strings in the tree whatever the
+	// options (json MapKeyAsString sniffs quoted map KEYS only)
+	mkasF, _ := oF["MapKeyAsString"].(bool)
+	if (F == "json" && mkasF && r.Chance(1, 2)) || r.Chance(1, 8) {
+		forceScalarStrings(r, v)
 	}
 	signedOvf := n.signed && hasBigUint(v)
 	if F == "json" && n.signed && hasFloatIn(v, 9223372036854775808.0, 18446744073709551616.0) {
